@@ -136,6 +136,17 @@ def timing(chk):
         worst = max(worst, ratio)
     return out, worst
 
+C11_HDR = LEF_HDR + "From Coq Require Import Uint63.\nFrom L21 Require Import Lef.LefPack.\n"
+_UNHEX = re.compile(r'\(unhex "([0-9a-f]*)"\)')
+def pack63(item):
+    """rewrite every (unhex "..") literal of a Coq item as (un63 [words]) -- see Lef/LefPack.v: a Coq string literal is
+    elaborated at ~10 term nodes per character (77% of the shard time), a primitive 63-bit word is one node"""
+    def enc(m):
+        b = bytes.fromhex(m.group(1))
+        ws = ["0x%x" % (int.from_bytes(b[i:i + 7], "little") | (len(b[i:i + 7]) << 56)) for i in range(0, len(b), 7)]
+        return "(un63 [%s]%%uint63)" % ";".join(ws)
+    return _UNHEX.sub(enc, item)
+
 def w_code(r):
     w = r.get("w")
     if w is None:
@@ -161,8 +172,8 @@ def evaluate(chk, cases, tag):
         i = res_to_coq(r["r"])
         wc = w_code(r)
         rw = "0" if wc is None else "(c11_rewrite_check %d %d)" % (wc, r2_code(r))
-        items.append("(c11_check %s %s %s, %s)" % (cfg, cbytes(c["src"]), i, rw))
-    outs = coq_eval_lists(LEF_HDR, items, chk.rundir, tag, shard=120)
+        items.append(pack63("(c11_check %s %s %s, %s)" % (cfg, cbytes(c["src"]), i, rw)))
+    outs = coq_eval_lists(C11_HDR, items, chk.rundir, tag, shard=120)
     codes = []
     for o in outs:
         m = re.match(r"\(\(?(-?\d+)\)?(?:%Z)?, \(?(-?\d+)\)?(?:%Z)?\)", o.strip())
@@ -172,7 +183,7 @@ def evaluate(chk, cases, tag):
     return res, codes
 
 def run(chk, replay=None):
-    chk.proof_leg(["Lef/LefCheck.vo"], "Properties/C11.v", ["Lef/LefLex_proofs.v", "Lef/LefParse_proofs.v"], "Properties.C11")
+    chk.proof_leg(["Lef/LefCheck.vo", "Lef/LefPack.vo"], "Properties/C11.v", ["Lef/LefLex_proofs.v", "Lef/LefParse_proofs.v", "Lef/LefSafety_proofs.v"], "Properties.C11")
     chk.assumptions += [
         "rust_decimal's Decimal::from_str is an external library: specified in Lef/LefDec.v from its source and validated by the correspondence; panics inside it are outside the model",
         "derive_builder `build()` and std formatting are modelled by their documented behaviour",
